@@ -130,6 +130,12 @@ func fileTreeRecursive(
 			}
 			return fileShardMeta{}, err
 		}
+		if leaf == nil {
+			// no data and no error is how the splitter reports a source that
+			// was cut off exactly at a chunk boundary; like the reference
+			// importer, take it for the end of the input
+			return fileShardMeta{}, nil
+		}
 		node := basicnode.NewBytes(leaf)
 		l, sz, err := sizedStore(ls, leafLinkProto, node)
 		if err != nil {
